@@ -85,8 +85,16 @@ def main(run):
                 if i == at:
                     interfere()
                 x = {"t": i}
-                st.update(x)
-                cur = [d["t"] for d in st.get_data()[0]]
+                if interference and i % 9 == 7:
+                    x = ("record", i)        # a non-dict record; whatever the storage does with it, the caller carries on
+                try:
+                    st.update(x)
+                except Exception:
+                    pass
+                cur = [(d["t"] if isinstance(d, dict) else d[1]) for d in st.get_data()[0]]
+                if i >= k and len(cur) != k:
+                    fails.append(("replacement-shape", f"k={k} p={pe}: a full reservoir holds {len(cur)} items after update {i + 1}"))
+                    break
                 if i >= k:
                     offers += 1
                     if i in cur:
